@@ -876,6 +876,78 @@ def generate_nearmiss_yieldend(rng):
             "near_miss": True, "has_strings": True}
 
 
+def generate_nearmiss_datadep(rng):
+    """
+    Near-miss programs whose possible non-consuming cycle is guarded by *data*: inside a loop, a path that consumes
+    nothing (else clause, nomatch handler, skipped optional) runs an action-only if/elif chain whose branches leave
+    the loop (break / finish) only for some values of the outputs; earlier bytes set those values up (a nesting depth,
+    a quote flag, a string being empty or full).  C04 quantifies over every value of the output variables: the compiler
+    must reject a program that can go round for some value, or the parser must not spin for any input.
+    """
+    r = rng
+    up = chr(r.choice((40, 60, 91, 123)))          # ( < [ {
+    down = {"(": ")", "<": ">", "[": "]", "{": "}"}[up]
+    q = r.choice(("'", "`", "|"))
+    x = chr(r.choice(LETTERS[:10]))
+    cap = r.choice((2, 3))
+    decl = ["out int n0 = 0;", "out int n1 = 0;", "out bool b0 = false;", "out str[%d] s0;" % (cap + 1), "hook h0;", "finishcode FA;"]
+    want_yield = r.random() < 0.25
+    if want_yield:
+        decl.append("yieldcode YA;")
+    setters = [
+        ('"%s" -> { n0 = [n0 + 1]; }' % up, '"%s" -> { n0 = [n0 - 1]; }' % down, ["n0 == 0", "n0 < 1", "n0 != 1", "n0 > 1", "n0 == 2"]),
+        ('"%s" -> { b0 = true; }' % up, '"%s" -> { b0 = false; }' % down, ["b0", "!b0"]),
+        ('"%s" -> { if b0 { b0 = false; } else { b0 = true; } }' % q, '"%s" -> { n1 = [n1 + 1]; }' % x, ["!b0", "b0", "n1 == 2", "n1 > 0 && !b0"]),
+        ('/[%s%s]/ -> { s0 += [$last]; }' % (up, x) if False else '"%s" -> { s0 += [65]; }' % up, '"%s" -> { delete s0; }' % down,
+         ["s0.len == 0", "s0.len == %d" % cap, "s0.len > 0", "s0.len < %d" % cap]),
+    ]
+    c_up, c_down, conds = r.choice(setters)
+    c1 = r.choice(conds)
+    c2 = r.choice(conds + ["n1 == 0"])
+    leave = lambda: r.choice(("break;", "break;", "finish;", "finish FA;"))
+    chains = [
+        "if %s { %s }" % (c1, leave()),
+        "if %s { %s }" % (c1, leave()),
+        "if %s { %s } elif %s { %s }" % (c1, leave(), c2, leave()),
+        "if %s { %s } else { %s }" % (c1, leave(), leave()),
+        "if %s { %s } else { n1 = [n1 + 1]; }" % (c1, leave()),
+        "if %s { %s } else { \"%s\"; }" % (c1, leave(), x),
+        "if %s { n1 = 0; %s }" % (c1, leave()),
+        "if %s { if %s { %s } }" % (c1, c2, leave()),
+        "if %s { h0(); } else { %s }" % (c1, leave()),
+        "if %s { %s } h0();" % (c1, leave()),
+        "n1 = [n1 + 1]; if %s { %s }" % (c1, leave()),
+        "if %s { %s } if %s { %s }" % (c1, leave(), c2, leave()),
+    ]
+    if want_yield:
+        chains += ["if %s { %s } else { yield YA; }" % (c1, leave()), "if %s { yield YA; %s }" % (c1, leave())]
+    chain = r.choice(chains)
+    other = chr(r.choice(DIGITS))
+    shapes = [
+        "loop { case { %s %s else -> { %s } } }" % (c_up, c_down, chain),
+        "loop { case { %s %s \"%s\" -> {} else -> { %s } } }" % (c_up, c_down, other, chain),
+        "loop lo { loop { case { %s %s else -> { %s } } } \"%s\"; }" % (c_up, c_down, chain.replace("break;", r.choice(("break;", "break lo;"))), other),
+        "loop { try { case { %s %s } } catch (nomatch) { %s } }" % (c_up, c_down, chain),
+        "loop { optional { case { %s %s } } %s }" % (c_up, c_down, chain),
+        "loop { case { %s %s } %s }" % (c_up, c_down, chain),          # consuming body, chain behind it: legitimate
+    ]
+    # (an action behind a case with an else clause at the end of a loop body is an internal compiler error on the
+    #  pinned tree - 'tuple' object has no attribute 'extend' - C18, not claimed: the shape is left out)
+    prog = r.choice(shapes)
+    if "break" not in chain:
+        # nothing leaves the loop except finish: code behind the loop would be unreachable (a structural rejection)
+        prog = r.choice(shapes[:2] + shapes[3:])
+        tail = ""
+    else:
+        tail = r.choice(("\"%s%s;\";" % (x, x), "\"%s\"; h0();" % x, "wait \";\";", ""))
+    src = "\n".join(decl) + "\n\nparser {\n    " + prog + "\n    " + tail + "\n}\n"
+    U, D, X, Q, O = up.encode(), down.encode(), x.encode(), q.encode(), other.encode()
+    samples = [X + X + b";", U + X, U + U + D + X, U + D + X + X + b";", Q + X, Q + X + Q + X + X + b";", X * 3, U * (cap + 1) + X,
+               U * cap + X + b";", U + O + X, D + X, U + D + D + X, X + X + Q, U + b"\x00", b"\xff", O + X]
+    return {"source": src, "need": ["-fyield-support"] if want_yield else [], "canaries": {}, "samples": [z.hex() for z in samples],
+            "near_miss": True, "has_strings": True}
+
+
 # ------------------------------------------------------------------ richer regexes (Glushkov first/last/follow)
 
 class RNode:
@@ -1049,6 +1121,9 @@ def generate_lifecycle(rng, noindex=False):
         d = "out %sstr[%d] s%d" % ("unterminated " if unterm else "", size, i)
         if r.random() < 0.65:
             d += " = " + esc_str([r.choice(LETTERS) for _ in range(r.randrange(0, cap + 1))])
+        elif r.random() < 0.25:
+            # text constants with control bytes and bytes >= 0x80 (own stream of draws: only taken when no plain default was)
+            d += " = " + esc_str([r.choice((0xe9, 0xff, 0x80, 10, 0, 65, 102)) for _ in range(r.choice((1, cap // 2, cap)))])
         decl.append(d + ";")
         strs.append({"name": "s%d" % i, "size": size, "unterm": unterm, "cap": cap})
         decl.append("out int{size 1} zc%d = 90;" % i)
@@ -1088,7 +1163,7 @@ def generate_lifecycle(rng, noindex=False):
             sample += bytes([a]) * r.choice((1, s["cap"], s["cap"] + 2)) + b"|"
         for _ in range(r.choice((1, 2))):
             use = r.choice(("append", "append", "appc", "assign", "len" if noindex else "index", "len", "hook",
-                            "hook" if noindex else "indexvar", "highbyte", "assignread"))
+                            "hook" if noindex else "indexvar", "highbyte", "assignread", "assignesc"))
             if use == "append":
                 lo = r.choice((97, 103, 109))
                 body.append("%s += /[%s-%s]+/;" % (name, chr(lo), chr(lo + 5)))
@@ -1098,6 +1173,11 @@ def generate_lifecycle(rng, noindex=False):
                 body.append("%s += [%s];" % (name, r.choice(("65", "$last", "n0 + 48"))))
             elif use == "assign":
                 body.append("%s = %s;" % (name, esc_str([r.choice(LETTERS) for _ in range(r.randrange(0, s["cap"] + 1))])))
+            elif use == "assignesc":
+                # constants with control bytes, NUL, hex-digit characters behind an escape, bytes >= 0x80; length (in
+                # characters) up to the capacity - whatever the constant denotes, it must fit or be refused
+                body.append("%s = %s;" % (name, esc_str([r.choice((0xe9, 0xff, 0x80, 0xc3, 10, 9, 0, 1, 65, 102, 48)) for _ in range(r.choice((1, 2, max(1, s["cap"] // 2), s["cap"])))])))
+                body.append("if %s.len > 0 { h1(); }" % name)
             elif use == "index":
                 body.append("n1 = [%s[%d] + %s.len];" % (name, r.choice((0, 1, s["size"] - 1)), name))
             elif use == "assignread":
